@@ -31,6 +31,10 @@ func checkC08(c *Check) {
 	c.Explanation = "C08 (structural clauses): the start of a recorded location is written only inside the location constructor (found by role: the pkg/parse function that builds a SourceContext from two ANTLR tokens); there Start.Line is the start token's line minus one and Start.Col its column unchanged; every listener callback that records a location derives it from its own rule context (or tokens of it), never from a parent, and child contexts only at the sites frozen as exceptions; every callback that does look-up-or-create on a keyed element appends a location on the found branch too; in the per-file loop the file stamp of the listener is assigned from that iteration's file name before the walk. Says nothing about positions being the right numbers."
 	c.Assumptions = append(c.Assumptions, "ANTLR tokens report 1-based lines and 0-based columns")
 	sourceTextIntact(c, "TEXT-INTACT")
+	walkEveryFile(c, "WALK-EVERY-FILE")
+	c.Counts["constant_trim_cutsets"] = pathCutsets(c, "PATH-CUTSET", func(pk string) bool {
+		return pk == repoMod+"/pkg/parse" || pk == repoMod+"/pkg/syslutil" || pk == repoMod+"/pkg/loader" || pk == repoMod+"/pkg/mod" || pk == repoMod+"/pkg/importer"
+	})
 	pk := p.Pkg(parsePkg)
 	if pk == nil {
 		c.Undecidedf("ANCHOR", parsePkg, "-", "package not found")
